@@ -477,7 +477,8 @@ fn diagnose(vrps: &[Vrp], route: &Pfx, d: &Deriv, reading: Reading, obs: &Obs) -
 }
 
 /// Full check of one validation; returns (signature, what) pairs (empty = holds).
-fn check_validation(vrps: &[Vrp], route: &Pfx, d: &Deriv, obs: &Obs) -> Vec<(String, String)> {
+/// `describe == false` leaves `what` empty (the sweep renders it only for the witnesses it keeps).
+fn check_validation(vrps: &[Vrp], route: &Pfx, d: &Deriv, obs: &Obs, describe: bool) -> Vec<(String, String)> {
     let mut first: Option<(bool, St, BTreeSet<String>)> = None;
     for r in &d.readings {
         let (bad_state, exp_state, causes) = diagnose(vrps, route, d, *r, obs);
@@ -490,7 +491,7 @@ fn check_validation(vrps: &[Vrp], route: &Pfx, d: &Deriv, obs: &Obs) -> Vec<(Str
     }
     let (bad_state, exp_state, causes) = first.unwrap();
     let clause = if bad_state { "state" } else { "lists" };
-    let what = format!(
+    let what = if !describe { String::new() } else { format!(
         "route {} ({}) against {{{}}}: expected {:?}, observed {:?} matched=[{}] unmatched_asn=[{}] unmatched_length=[{}]",
         route.show(),
         d.name,
@@ -500,7 +501,7 @@ fn check_validation(vrps: &[Vrp], route: &Pfx, d: &Deriv, obs: &Obs) -> Vec<(Str
         obs.matched.iter().map(show_key).collect::<Vec<_>>().join(","),
         obs.unmatched_asn.iter().map(show_key).collect::<Vec<_>>().join(","),
         obs.unmatched_length.iter().map(show_key).collect::<Vec<_>>().join(","),
-    );
+    ) };
     if causes.is_empty() {
         return vec![(format!("C12/state/inconsistent-with-lists/exp={:?},got={:?}", exp_state, obs.state), what)];
     }
@@ -517,10 +518,10 @@ fn val_case(vrps: &[Vrp], route: &Pfx, d: &Deriv) -> String {
 }
 
 /// Run the subject on one (VRP set, route, derivation) and evaluate the oracle.
-fn eval_one(t: &RpkiTable, src: &Arc<Source>, vrps: &[Vrp], route: &Pfx, d: &Deriv) -> Vec<(String, String)> {
+fn eval_one(t: &RpkiTable, src: &Arc<Source>, vrps: &[Vrp], route: &Pfx, d: &Deriv, describe: bool) -> Vec<(String, String)> {
     let nlri = route.nlri();
     match catch(|| observe(t.validate(src, &nlri, &d.attrs))) {
-        Ok(obs) => check_validation(vrps, route, d, &obs),
+        Ok(obs) => check_validation(vrps, route, d, &obs, describe),
         Err(msg) => vec![(
             format!("C12/panic/{}", bfs::panic_loc(&msg)),
             format!("validate panicked ({msg}) for route {} ({})", route.show(), d.name),
@@ -541,22 +542,6 @@ fn relation(v: &Pfx, r: &Pfx) -> u32 {
         if v.octets() == r.octets() { 3 } else { 4 } // more specific
     } else {
         5 // disjoint
-    }
-}
-
-/// Keep, per signature, the shortest witness (ties: lexicographically smallest case)
-/// so that the witness does not depend on the thread schedule.
-fn keep(m: &mut BTreeMap<String, (Violation, u64)>, v: Violation, n: u64) {
-    match m.get_mut(&v.sig) {
-        Some((old, c)) => {
-            *c += n;
-            if (v.case.len(), v.case.as_str()) < (old.case.len(), old.case.as_str()) {
-                *old = v;
-            }
-        }
-        None => {
-            m.insert(v.sig.clone(), (v, n));
-        }
     }
 }
 
@@ -598,7 +583,22 @@ fn sweep(space: &Space, min_set: usize, max_set: usize, rep: &mut Report) {
     }
     let n = universe.len();
     let sets_total = AtomicU64::new(0);
-    let found: std::sync::Mutex<BTreeMap<String, (Violation, u64)>> = std::sync::Mutex::new(BTreeMap::new());
+    // per signature: count and the least witness in the order (set size, VRP indices, route, derivation)
+    type Wit = (usize, Vec<usize>, usize, usize);
+    let found: std::sync::Mutex<BTreeMap<String, (Wit, u64)>> = std::sync::Mutex::new(BTreeMap::new());
+    fn keep_wit(m: &mut BTreeMap<String, (Wit, u64)>, sig: String, w: Wit, n: u64) {
+        match m.get_mut(&sig) {
+            Some((old, c)) => {
+                *c += n;
+                if w < *old {
+                    *old = w;
+                }
+            }
+            None => {
+                m.insert(sig, (w, n));
+            }
+        }
+    }
     let mut local = Report::new(&rep.property, &rep.part);
     // work item i < n: all sets whose smallest element is i; item n: the empty set
     enumr::par_range(n as u64 + 1, &mut local, |i, lr| {
@@ -608,7 +608,7 @@ fn sweep(space: &Space, min_set: usize, max_set: usize, rep: &mut Report) {
         let mut evals = 0u64;
         let mut nontrivial = 0u64;
         let mut nsets = 0u64;
-        let mut viols: BTreeMap<String, (Violation, u64)> = BTreeMap::new();
+        let mut viols: BTreeMap<String, (Wit, u64)> = BTreeMap::new();
         let mut body = |idx: &[usize]| {
             if idx.len() < min_set {
                 return; // smaller sets are covered by another sweep
@@ -616,7 +616,7 @@ fn sweep(space: &Space, min_set: usize, max_set: usize, rep: &mut Report) {
             nsets += 1;
             let vrps: Vec<Vrp> = idx.iter().map(|&j| universe[j]).collect();
             let t = build_table(&vrps, &caches);
-            for route in &routes {
+            for (ri, route) in routes.iter().enumerate() {
                 let mut rel: Vec<u32> = vrps.iter().map(|v| relation(&v.pfx, route)).collect();
                 rel.sort();
                 let related = rel.iter().any(|&r| r != 5);
@@ -626,7 +626,7 @@ fn sweep(space: &Space, min_set: usize, max_set: usize, rep: &mut Report) {
                     if related {
                         nontrivial += 1;
                     }
-                    let out = eval_one(&t, &src, &vrps, route, d);
+                    let out = eval_one(&t, &src, &vrps, route, d, false);
                     // outcome class: relations x derivation x primary expected state
                     let exp = match d.readings[0] {
                         Reading::Origin(o) => expect(&vrps, route, o),
@@ -634,8 +634,20 @@ fn sweep(space: &Space, min_set: usize, max_set: usize, rep: &mut Report) {
                     };
                     let cls = (relbits << 8) | ((di as u32) << 4) | ((exp.state as u32) << 2) | (exp.matched.len().min(3) as u32);
                     *classes.entry(cls).or_insert(0) += 1;
-                    for (sig, what) in out {
-                        keep(&mut viols, Violation { sig, what, case: val_case(&vrps, route, d) }, 1);
+                    for (sig, _) in out {
+                        match viols.get_mut(&sig) {
+                            // within one work item the cases come in increasing witness order
+                            // except for the set size: compare properly
+                            Some((w, c)) => {
+                                *c += 1;
+                                if (idx.len(), idx, ri, di) < (w.0, w.1.as_slice(), w.2, w.3) {
+                                    *w = (idx.len(), idx.to_vec(), ri, di);
+                                }
+                            }
+                            None => {
+                                viols.insert(sig, ((idx.len(), idx.to_vec(), ri, di), 1));
+                            }
+                        }
                     }
                 }
             }
@@ -653,11 +665,26 @@ fn sweep(space: &Space, min_set: usize, max_set: usize, rep: &mut Report) {
             lr.add(&format!("oc:{c:x}"), k);
         }
         let mut g = found.lock().unwrap();
-        for (_, (v, k)) in viols {
-            keep(&mut g, v, k);
+        for (sig, (w, k)) in viols {
+            keep_wit(&mut g, sig, w, k);
         }
     });
-    local.violations = found.into_inner().unwrap();
+    // render the kept witnesses
+    {
+        let src = speaker();
+        let caches = [Arc::new(cache_addr(0)), Arc::new(cache_addr(1))];
+        for (sig, ((_, idx, ri, di), count)) in found.into_inner().unwrap() {
+            let vrps: Vec<Vrp> = idx.iter().map(|&j| universe[j]).collect();
+            let t = build_table(&vrps, &caches);
+            let out = eval_one(&t, &src, &vrps, &routes[ri], &derivs[di], true);
+            let what = out.into_iter().find(|(s, _)| *s == sig).map(|(_, w)| w).unwrap_or_else(|| "witness did not reproduce".into());
+            if what == "witness did not reproduce" {
+                local.machinery_error = Some(format!("{}: witness of {sig} did not reproduce", space.name()));
+            }
+            let v = Violation { sig: sig.clone(), what, case: val_case(&vrps, &routes[ri], &derivs[di]) };
+            local.violations.insert(sig, (v, count));
+        }
+    }
     // fold the outcome classes into counts
     let mut n_classes = 0u64;
     let mut by_state = [0u64; 3];
@@ -735,7 +762,7 @@ struct MSys {
     broken: BTreeSet<String>,
 }
 
-fn maint_model(thorough: bool) -> Maint {
+fn maint_model() -> Maint {
     let p = |s: &str| Pfx::parse(s).unwrap();
     let vrps = vec![
         // A, B and E share the trie key; every pair of them differs in exactly one
@@ -749,14 +776,10 @@ fn maint_model(thorough: bool) -> Maint {
         // E: max-length of A, AS of B
         (p("10.0.0.0/8"), 16, 65002),
     ];
-    // every VRP can be announced by both caches (duplicates across caches);
-    // in the quick tier E only by c1 to keep the state space small
+    // every VRP can be announced by both caches (duplicates across caches)
     let mut pairs: Vec<(u8, usize)> = Vec::new();
     for c in 0..2u8 {
         for v in 0..vrps.len() {
-            if v == 4 && c == 1 && !thorough && std::env::var("C12_SMALL").is_ok() {
-                continue;
-            }
             pairs.push((c, v));
         }
     }
@@ -811,7 +834,9 @@ impl Maint {
         out
     }
 
-    fn check(&self, sys: &MSys, kind: &str, cur: &mut Vec<(String, String)>) {
+    /// Returns (state() observations, of which deviating from GoBGP's counts).
+    fn check(&self, sys: &MSys, kind: &str, cur: &mut Vec<(String, String)>) -> (u64, u64) {
+        let (mut n_obs, mut n_dev) = (0u64, 0u64);
         // --- set semantics of iter()
         let dump = self.dump(sys);
         let mut seen: Vec<(u8, Pfx, u8, u32)> = dump.iter().map(|d| (d.1, d.3, d.4, d.5)).collect();
@@ -848,7 +873,7 @@ impl Maint {
             ));
         }
         if !effects.is_empty() {
-            return; // everything below would only inherit the damage
+            return (n_obs, n_dev); // everything below would only inherit the damage
         }
         // --- state(addr): the per-cache VRP count must be reported by one of the two counters
         for c in 0..2u8 {
@@ -867,27 +892,39 @@ impl Maint {
                         ),
                     ));
                 }
-                self.count_checked.fetch_add(1, Ordering::Relaxed);
+                n_obs += 1;
                 // GoBGP: records = VRPs, prefixes = distinct prefixes (either naming accepted here)
                 if !((rec == n_vrps && pfx == n_pfx) || (rec == n_pfx && pfx == n_vrps)) {
-                    self.count_deviation.fetch_add(1, Ordering::Relaxed);
+                    n_dev += 1;
                 }
             }
         }
         // --- validation of a handful of routes against the reference set
         let vrps: Vec<Vrp> = sys.model.iter().map(|m| Vrp { cache: m.0, pfx: m.1, maxlen: m.2, asn: m.3 }).collect();
+        // one report per signature and state (the first route/derivation showing it)
+        let mut seen_sigs: BTreeSet<String> = cur.iter().map(|c| c.0.clone()).collect();
         for route in &self.routes {
             for d in &self.derivs {
-                cur.extend(eval_one(&sys.t, &self.src, &vrps, route, d));
+                for (sig, what) in eval_one(&sys.t, &self.src, &vrps, route, d, false) {
+                    if seen_sigs.insert(sig.clone()) {
+                        let what = eval_one(&sys.t, &self.src, &vrps, route, d, true)
+                            .into_iter()
+                            .find(|x| x.0 == sig)
+                            .map(|x| x.1)
+                            .unwrap_or(what);
+                        cur.push((sig, what));
+                    }
+                }
             }
         }
+        (n_obs, n_dev)
     }
 }
 
 impl Model for Maint {
     type Sys = MSys;
     fn name(&self) -> String {
-        format!("c12-maint{}", self.ops.len())
+        "c12-maint".into()
     }
     fn n_ops(&self) -> usize {
         self.ops.len()
@@ -910,6 +947,11 @@ impl Model for Maint {
         }
     }
     fn step(&self, sys: &mut MSys, op: usize, out: &mut Vec<(String, String)>) -> bool {
+        if sys.broken.contains("set") {
+            // table and reference have diverged (reported on the step that did it):
+            // nothing meaningful can be checked behind this state
+            return false;
+        }
         let kind;
         match self.ops[op] {
             Op::Insert(c, i) => {
@@ -942,23 +984,31 @@ impl Model for Maint {
             Some(c) => c,
             None => {
                 let mut cur = Vec::new();
-                self.check(sys, kind, &mut cur);
+                let (n_obs, n_dev) = self.check(sys, kind, &mut cur);
                 let cur = Arc::new(cur);
-                self.memo.write().unwrap().entry(key).or_insert(cur).clone()
+                match self.memo.write().unwrap().entry(key) {
+                    std::collections::hash_map::Entry::Occupied(e) => e.get().clone(),
+                    std::collections::hash_map::Entry::Vacant(e) => {
+                        // tallies are per distinct key, whichever thread gets here first
+                        self.count_checked.fetch_add(n_obs, Ordering::Relaxed);
+                        self.count_deviation.fetch_add(n_dev, Ordering::Relaxed);
+                        e.insert(cur).clone()
+                    }
+                }
             }
         };
-        // a clause is reported on the step that breaks it, not on later states inheriting the damage;
-        // validation clauses (state/lists/panic) are stateless and reported wherever they show
+        // A clause is reported on the step that breaks it, not on later states that
+        // inherit the damage.  Validation clauses are stateless (a function of the
+        // table content): they are reported on the step after which they first show
+        // and again only after they have disappeared in between.
         let mut now = BTreeSet::new();
-        for (sig, what) in cur.iter().cloned() {
-            let clause = sig.split('/').nth(1).unwrap_or("").to_string();
-            let sticky = clause == "set" || clause == "counts";
-            if !(sticky && sys.broken.contains(&clause)) {
-                out.push((sig, what));
+        for (sig, what) in cur.iter() {
+            let clause = sig.split('/').nth(1).unwrap_or("");
+            let tag = if clause == "set" || clause == "counts" { clause.to_string() } else { sig.clone() };
+            if !sys.broken.contains(&tag) && !now.contains(&tag) {
+                out.push((sig.clone(), what.clone()));
             }
-            if sticky {
-                now.insert(clause);
-            }
+            now.insert(tag);
         }
         sys.broken = now;
         true
@@ -1020,7 +1070,7 @@ fn replay_val(case: &str, rep: &mut Report) {
         Err(m) => eprintln!("  subject panicked: {m}"),
     }
     rep.evaluations = 1;
-    for (sig, what) in eval_one(&t, &src, &vrps, &route, d) {
+    for (sig, what) in eval_one(&t, &src, &vrps, &route, d, true) {
         eprintln!("  VIOLATION {sig}: {what}");
         rep.violation(Violation { sig, what, case: val_case(&vrps, &route, d) });
     }
@@ -1028,8 +1078,7 @@ fn replay_val(case: &str, rep: &mut Report) {
 
 pub fn run(replay: Option<&str>) -> Report {
     let mut rep = Report::new("C12", "hx-c12");
-    // replay cases carry op indices: the model name encodes which op list they refer to
-    let maint = maint_model(rep.thorough());
+    let maint = maint_model();
     if let Some(case) = replay {
         if case.starts_with("val#") {
             replay_val(case, &mut rep);
@@ -1039,14 +1088,8 @@ pub fn run(replay: Option<&str>) -> Report {
             rep.machinery_error = Some("bad replay case".into());
             return rep;
         };
-        // the op list depends on the tier the case was found in; pick the matching model
-        let maint = [maint, maint_model(true), maint_model(false)].into_iter().find(|m| m.name() == name);
-        let Some(maint) = maint else {
-            rep.machinery_error = Some(format!("unknown model in {case:?}"));
-            return rep;
-        };
-        if hist.iter().any(|&o| o as usize >= maint.n_ops()) {
-            rep.machinery_error = Some(format!("unknown op in {case:?}"));
+        if name != maint.name() || hist.iter().any(|&o| o as usize >= maint.n_ops()) {
+            rep.machinery_error = Some(format!("unknown model / op in {case:?}"));
             return rep;
         }
         eprintln!("replay {}", bfs::render(&maint, &hist));
@@ -1099,7 +1142,7 @@ pub fn run(replay: Option<&str>) -> Report {
     }
 
     // part (b)
-    let cfg = BfsCfg { max_depth: 40, max_secs: if thorough { 1200 } else { 40 }, ..Default::default() };
+    let cfg = BfsCfg { max_depth: 40, max_secs: if thorough { 1800 } else { 300 }, ..Default::default() };
     let st = bfs::bfs(&maint, &cfg, &mut rep);
     if !st.fixpoint {
         rep.exhaustive = false;
